@@ -5,6 +5,7 @@ import (
 	"fmt"
 	"math/rand/v2"
 	"runtime"
+	"sort"
 	"strings"
 	"time"
 
@@ -23,7 +24,7 @@ type IfaceCase struct {
 	// each device event carries; Seq is derived from it (only IfOperUp is "link up", every other state is
 	// a link that cannot be used). The events are delivered through a device.Updater of the harness,
 	// because device.MockServer can only say up and down.
-	States []uint8 `json:"states,omitempty"`
+	States []int `json:"states,omitempty"`
 	// Inflight, when set, runs rounds of (link up, PDUs delivered to the socket, link loss without
 	// waiting for the receiver) in front of Seq: device events that race with PDUs being processed.
 	Inflight *Inflight `json:"inflight,omitempty"`
@@ -33,8 +34,8 @@ type IfaceCase struct {
 type Inflight struct {
 	Rounds int      `json:"rounds"`
 	Frames []string `json:"frames"` // PDUs a neighbor sends after every link up: hello-down, hello-init, hello-up, lsp, csnp, psnp
-	Yields []int    `json:"yields"` // scheduler yields between the last PDU and the link loss event (round i uses Yields[i % len])
-	Loss   []uint8  `json:"loss"`   // operational states reporting the link loss (round i uses Loss[i % len])
+	Yields []int    `json:"yields"` // scheduler yields between the last PDU and the link loss event, -1 = spin until the receiver has taken the first PDU (round i uses Yields[i % len])
+	Loss   []int    `json:"loss"`   // operational states reporting the link loss (round i uses Loss[i % len])
 }
 
 var operNames = map[uint8]string{
@@ -43,15 +44,15 @@ var operNames = map[uint8]string{
 }
 
 // OperName names an operational state.
-func OperName(st uint8) string {
-	if n, ok := operNames[st]; ok {
+func OperName(st int) string {
+	if n, ok := operNames[uint8(st)]; ok && st >= 0 && st < 256 {
 		return n
 	}
 	return fmt.Sprintf("oper%d", st)
 }
 
 // eventWatchdog bounds one device event in a racing scenario (they return within microseconds).
-const eventWatchdog = 15 * time.Second
+const eventWatchdog = 10 * time.Second
 
 func (c IfaceCase) String() string {
 	var b strings.Builder
@@ -73,7 +74,7 @@ func (c IfaceCase) String() string {
 		}
 	}
 	for _, st := range c.States {
-		b.WriteByte("KNDLTMU?"[min(int(st), 7)]) // unKnown Notpresent Down Lowerlayerdown Testing dorMant Up
+		b.WriteByte("KNDLTMU?"[max(0, min(st, 7))]) // unKnown Notpresent Down Lowerlayerdown Testing dorMant Up
 	}
 	k := "active"
 	if c.Passive {
@@ -138,7 +139,7 @@ func RunIface(c IfaceCase, out *Outcome, emit func(Sent)) {
 	// deliver hands event i of the sequence to the server
 	deliver := func(h *H, i int) {
 		if len(c.States) > 0 {
-			h.EventState("eth0", c.States[i])
+			h.EventState("eth0", uint8(c.States[i]))
 		} else {
 			h.Event("eth0", c.Seq[i])
 		}
@@ -407,11 +408,18 @@ func serverGoroutines(marker string) (dump string, at string) {
 			at = ClassifyPanic("", g).At
 		}
 	}
+	// goroutines waiting for a lock, a wait group or a condition first: they are the cycle
+	sort.SliceStable(keep, func(i, j int) bool { return syncBlocked(keep[i]) && !syncBlocked(keep[j]) })
 	dump = strings.Join(keep, "\n\n")
 	if len(dump) > 6000 {
 		dump = dump[:6000]
 	}
 	return dump, at
+}
+
+func syncBlocked(g string) bool {
+	hdr, _, _ := strings.Cut(g, "\n")
+	return strings.Contains(hdr, "semacquire") || strings.Contains(hdr, "sync.")
 }
 
 // runInflight runs the racing rounds of a scenario: link up, PDUs of a neighbor delivered to the socket,
@@ -425,21 +433,24 @@ func runInflight(c IfaceCase, h *H, out *Outcome, clause func(string) string, fe
 	}
 	loss, yields := in.Loss, in.Yields
 	if len(loss) == 0 {
-		loss = []uint8{device.IfOperDown}
+		loss = []int{device.IfOperDown}
 	}
 	if len(yields) == 0 {
 		yields = []int{0}
 	}
 	circ := h.CircuitID("eth0")
 	// watched runs one device event; it must return
-	watched := func(round int, st uint8) bool {
-		ev := OperName(st)
+	watched := func(round int, st int) bool {
+		ev, kind := OperName(st), "link-loss"
+		if st == device.IfOperUp {
+			kind = "up"
+		}
 		var pi *PanicInfo
 		var txt string
 		done := make(chan struct{})
 		go func() {
 			defer close(done)
-			pi, txt = Guard(func() { h.EventState("eth0", st) })
+			pi, txt = Guard(func() { h.EventState("eth0", uint8(st)) })
 		}()
 		out.Count("events", 1)
 		out.Count("event_watchdog_checks", 1)
@@ -448,7 +459,7 @@ func runInflight(c IfaceCase, h *H, out *Outcome, clause func(string) string, fe
 		case <-time.After(eventWatchdog):
 			dump, at := serverGoroutines("DeviceUpdate")
 			out.Poisoned = true
-			out.Violate(clause("event-hang"), feat("event", ev, "raced_with", strings.Join(in.Frames, "+"), "blocked_in", at),
+			out.Violate(clause("event-hang"), feat("event", kind, "blocked_in", at),
 				"scenario %s: round %d: the device event reporting %s did not return within %s while PDUs a neighbor had just sent were being received: the device server's notifier is stuck and the interface can never be restarted. Goroutines inside the IS-IS server:\n%s", c, round+1, ev, eventWatchdog, dump)
 			return false
 		}
@@ -473,8 +484,17 @@ func runInflight(c IfaceCase, h *H, out *Outcome, clause func(string) string, fe
 					cur.SendFromRemote(nbrAMAC, WithLLC(f))
 				}
 			}
-			for y := yields[r%len(yields)]; y > 0; y-- {
-				runtime.Gosched()
+			if y := yields[r%len(yields)]; y < 0 {
+				// report the loss at the moment the receiver goroutine has taken the first PDU out of the socket
+				for t0 := time.Now(); time.Since(t0) < 2*time.Millisecond; {
+					if _, delivered := cur.Rx(); delivered >= 1 {
+						break
+					}
+				}
+			} else {
+				for ; y > 0; y-- {
+					runtime.Gosched()
+				}
 			}
 			// where the PDUs are when the link loss is reported (measured, not assumed)
 			entered, delivered := cur.Rx()
@@ -499,15 +519,15 @@ func runInflight(c IfaceCase, h *H, out *Outcome, clause func(string) string, fe
 // IfaceStateCases enumerates every sequence of operational states of length 1..maxLen.
 func IfaceStateCases(maxLen int, passive bool, adv int) []IfaceCase {
 	var out []IfaceCase
-	var rec func(prefix []uint8)
-	rec = func(prefix []uint8) {
+	var rec func(prefix []int)
+	rec = func(prefix []int) {
 		if len(prefix) > 0 {
-			out = append(out, IfaceCase{Passive: passive, Adv: adv, States: append([]uint8{}, prefix...)})
+			out = append(out, IfaceCase{Passive: passive, Adv: adv, States: append([]int{}, prefix...)})
 		}
 		if len(prefix) == maxLen {
 			return
 		}
-		for st := uint8(device.IfOperUnknown); st <= device.IfOperUp; st++ {
+		for st := int(device.IfOperUnknown); st <= device.IfOperUp; st++ {
 			rec(append(prefix, st))
 		}
 	}
@@ -519,9 +539,9 @@ func IfaceStateCases(maxLen int, passive bool, adv int) []IfaceCase {
 func GenIfaceStateCase(rng *rand.Rand) IfaceCase {
 	c := IfaceCase{Passive: rng.IntN(5) == 0, Adv: []int{0, 0, 6}[rng.IntN(3)]}
 	for n := 4 + rng.IntN(5); n > 0; n-- {
-		st := uint8(device.IfOperUp)
+		st := int(device.IfOperUp)
 		if rng.IntN(2) == 0 {
-			st = uint8(rng.IntN(int(device.IfOperUp)))
+			st = rng.IntN(int(device.IfOperUp))
 		}
 		c.States = append(c.States, st)
 	}
@@ -548,13 +568,13 @@ func GenInflightCase(rng *rand.Rand, rounds int) IfaceCase {
 		}
 	}
 	for n := 1 + rng.IntN(4); n > 0; n-- {
-		in.Yields = append(in.Yields, []int{0, 0, 1, 2, 3, 5, 10, 30}[rng.IntN(8)])
+		in.Yields = append(in.Yields, []int{-1, -1, -1, -1, 0, 0, 1, 2, 3, 5, 10, 30}[rng.IntN(12)])
 	}
-	in.Loss = []uint8{device.IfOperDown}
+	in.Loss = []int{device.IfOperDown}
 	if rng.IntN(2) == 0 {
 		in.Loss = nil
 		for n := 1 + rng.IntN(3); n > 0; n-- {
-			in.Loss = append(in.Loss, uint8(rng.IntN(int(device.IfOperUp))))
+			in.Loss = append(in.Loss, rng.IntN(int(device.IfOperUp)))
 		}
 	}
 	return IfaceCase{Adv: 0, Inflight: in, Seq: []bool{true}}
